@@ -260,9 +260,16 @@ RECURSIVE OrphanFold(_, _, _)
 OrphanFold(s, hs, i) ==
   IF ~OK(s) \/ i > Len(hs) THEN s
   ELSE OrphanFold(DelVertex(CopyDelEdges(s, s.V[hs[i]].oe, 1), hs[i]), hs, i + 1)
+\* ... and (repository fix 41cf233) the mesh edges that belong to no face: in a dump the faces are loops of
+\* signed edge ids, here the mesh edges joining consecutive vertices of some cell cycle
+RECURSIVE FacelessFold(_, _, _)
+FacelessFold(s, es, i) == IF ~OK(s) \/ i > Len(es) THEN s ELSE FacelessFold(DelEdge(s, es[i]), es, i + 1)
+OnSomeCell(s, e) == \E c \in DOMAIN s.C : ConsecutiveIn(s.C[c], s.E[e][1], s.E[e][2])
 OrphanRemoval(s) ==
   IF ~OK(s) THEN s
-  ELSE OrphanFold(s, SeqOfSetSorted({h \in s.vd : Len(s.V[h].oc) = 0}), 1)
+  ELSE LET s1 == OrphanFold(s, SeqOfSetSorted({h \in s.vd : Len(s.V[h].oc) = 0}), 1)
+       IN  IF ~OK(s1) THEN s1
+           ELSE FacelessFold(s1, SeqOfSetSorted({e \in DOMAIN s1.E : ~OnSomeCell(s1, e)}), 1)
 
 \* do_t3_transition(artifact): merge the vertices `art` (sequence of handles) into a new vertex at their mean
 RECURSIVE SumPos(_, _, _)
